@@ -4,7 +4,7 @@
 From Coq Require Import List String ZArith Bool.
 From GG Require Import Base.Strs Model.Codes Model.IgnoreSet Model.Config Model.GoTypes Model.GoAst Model.Annots Model.Analyze Model.Reporter
                        Extracted Exec Proofs.IgnoreSetProofs Proofs.ReporterProofs Proofs.TotalProofs.
-From GG Require Properties.C16 Properties.C19.
+From GG Require Properties.C16 Properties.C19 Proofs.OpsProofs.
 Import ListNotations.
 Local Open Scope Z_scope.
 
@@ -27,6 +27,13 @@ Qed.
 Theorem C10_suppression_lookup_total :
   forall ops c p, (forall cs st en, In (OpAdd cs st en) ops -> 1 <= st) -> x_is_contains (x_is_run ops) c p <> Panic.
 Proof. exact C16.C16_no_panic. Qed.
+
+(* (3') ... and the markers a package's own @ignore comments produce always meet that condition: with file positions >= 1
+   (go/token never hands out 0; evaluated on every serialised package) the suppression look-up of the analysed package is
+   total for every code and position *)
+Theorem C10_suppression_lookup_total_for_packages :
+  forall cfg p ops c q, OpsProofs.x_pos_ok cfg p = true -> x_ignore_ops cfg p = Some ops -> x_is_contains (x_is_run ops) c q <> Panic.
+Proof. intros cfg p ops c q H E. apply C16.C16_no_panic. exact (OpsProofs.x_ops_positive cfg p ops H E). Qed.
 
 (* (4) rendering a diagnostic never slices out of range: any file content, any line, any column (0 and negative included),
    any code and message *)
@@ -52,3 +59,4 @@ Print Assumptions C10_ignore_reader_total.
 Print Assumptions C10_analysis_total.
 Print Assumptions C10_suppression_lookup_total.
 Print Assumptions C10_reporter_total.
+Print Assumptions C10_suppression_lookup_total_for_packages.
